@@ -59,6 +59,7 @@ structure DState where
   oth : Option SDB
   committed : Array (Addr → Option Acct)
   classes : Array String
+  quiet : Bool := false      -- cold-cache history: observations only after fi/rt/cm/dm
 
 def classOf (d : DState) (fp : String) : DState × String :=
   match d.classes.findIdx? (· == fp) with
@@ -135,6 +136,8 @@ def act (d : DState) (a : String) : Option Res :=
     let c := copy s
     if c.fault then some .panic else
     some (.ok { d with oth := some c } ("ok/" ++ showState s ++ "/" ++ showState c))
+  | ["q"] => some (.ok { d with quiet := true } ("ok/" ++ showState s))
+  | ["dm"] => some (.ok d ("ok/" ++ showState s))
   | ["sw"] =>
     match d.oth with
     | none => some (.ok d ("ok/" ++ showState s))
@@ -146,13 +149,25 @@ def act (d : DState) (a : String) : Option Res :=
     some (.ok d' (c ++ "/" ++ showState s))
   | _ => none
 
+def isCheckpoint (a : String) : Bool :=
+  match a.splitOn ":" with
+  | "fi" :: _ => true
+  | "rt" :: _ => true
+  | "cm" :: _ => true
+  | "dm" :: _ => true
+  | _ => false
+
+def retOf (ob : String) : String := (ob.splitOn "/").headD ""
+
 def runActs : List String → DState → List String → List String
   | [], _, acc => acc.reverse
   | a :: rest, d, acc =>
     match act d a with
     | none => ("bad-op" :: acc).reverse
     | some .panic => ("panic" :: acc).reverse
-    | some (.ok d' o) => runActs rest d' (o :: acc)
+    | some (.ok d' o) =>
+      let o' := if d'.quiet && !isCheckpoint a then retOf o ++ "/~" else o
+      runActs rest d' (o' :: acc)
 
 /-! ### judging the Go output on its own (only used when it differs from the model) -/
 
@@ -185,6 +200,14 @@ structure JState where
 
 def judgeStep (j : JState) (a ob : String) : JState :=
   if j.why.isSome then j else
+  if ob.endsWith "/~" then
+    -- cold-cache observation: nothing to judge, but keep track of which StateDB is current
+    match a.splitOn ":" with
+    | ["ro", _] => { j with curId := j.nextState, nextState := j.nextState + 1 }
+    | ["cp"] => { j with othId := some j.nextState, nextState := j.nextState + 1 }
+    | ["sw"] => (match j.othId with | some o => { j with curId := o, othId := some j.curId } | none => j)
+    | _ => j
+  else
   let f := a.splitOn ":"
   let bad (w : String) : JState := { j with why := some w }
   let rootCheck (content cls : String) : JState :=
